@@ -23,7 +23,7 @@ func ToArticleID(filename *ptttype.Filename_t) ArticleID {
 func (a ArticleID) ToRaw() (filename *ptttype.Filename_t) {
 	// 1st 8 bytes are aidc
 	aidc := &ptttype.Aidc{}
-	copy(aidc[:], []byte(a[:8]))
+	copy(aidc[:], []byte(a))
 	filename = aidc.ToAidu().ToFN()
 
 	return filename
